@@ -16,7 +16,14 @@ import (
 	"k8s.io/apimachinery/pkg/runtime"
 	"k8s.io/apimachinery/pkg/types"
 	"k8s.io/utils/ptr"
+	"sigs.k8s.io/controller-runtime/pkg/reconcile"
 
+	"github.com/crossplane/crossplane-runtime/pkg/feature"
+
+	pkgmetav1 "github.com/crossplane/crossplane/apis/pkg/meta/v1"
+	v1 "github.com/crossplane/crossplane/apis/pkg/v1"
+	"github.com/crossplane/crossplane/apis/pkg/v1beta1"
+	"github.com/crossplane/crossplane/internal/xpkg"
 	zz "github.com/crossplane/crossplane/internal/zzverif"
 	"github.com/crossplane/crossplane/internal/zzverif/kube"
 )
@@ -152,4 +159,79 @@ func HarnessC16Webhooks() {
 		}
 	}
 	zz.Observe("writes", len(real))
+}
+
+// HarnessC16StatusLost: a revision that was active - it controls its CRD and
+// the webhook configuration it installed under the package-derived name - has
+// been switched to Inactive, and its status.objectRefs are gone (restored
+// from a backup without status). The reconciler re-reads the package to find
+// its objects. Once its reconciles settle, the revision controls none of
+// them any more.
+//
+//gosym:harness
+//gosym:cover settled webhook-renamed
+func HarnessC16StatusLost() {
+	s := kube.New()
+	s.Register(&v1.ProviderRevision{}, &v1.ProviderRevisionList{}, "pkg.crossplane.io", "ProviderRevision")
+	s.Register(&v1beta1.Lock{}, &v1beta1.LockList{}, "pkg.crossplane.io", "Lock")
+	s.Register(&extv1.CustomResourceDefinition{}, &extv1.CustomResourceDefinitionList{}, zzCRDGroup, zzCRDKind)
+	s.Register(&admv1.ValidatingWebhookConfiguration{}, &admv1.ValidatingWebhookConfigurationList{}, zzWHGroup, zzWHKind)
+	s.Register(&corev1.Secret{}, &corev1.SecretList{}, "", "Secret")
+
+	pr := zzRevision("rev-old", zzOldUID)
+	pr.Finalizers = []string{finalizer}
+	pr.SetSource("xpkg.example.org/org/pkg:v1.0.0")
+	pr.SetDesiredState(v1.PackageRevisionInactive)
+	pr.SetTLSServerSecretName(ptr.To("tls-server"))
+	s.Put(pr)
+	s.Put(&corev1.Secret{ObjectMeta: metav1.ObjectMeta{Name: "tls-server", Namespace: "crossplane-system"}, Data: map[string][]byte{"tls.crt": []byte("CERT")}})
+	owners := []metav1.OwnerReference{
+		{APIVersion: v1.SchemeGroupVersion.String(), Kind: v1.ProviderRevisionKind, Name: "rev-old", UID: zzOldUID, Controller: ptr.To(true)},
+		{APIVersion: v1.SchemeGroupVersion.String(), Kind: v1.ProviderKind, Name: zzPkg, UID: zzPkgUID, Controller: ptr.To(false)},
+	}
+	crd := zzCRD(zzCRDNames[0])
+	crd.SetOwnerReferences(owners)
+	s.Put(crd)
+	hasWebhook := zz.Bool("package.hasWebhookConfiguration")
+	objs := []runtime.Object{zzCRD(zzCRDNames[0])}
+	if hasWebhook {
+		zz.Cover("webhook-renamed")
+		// installed by the revision while it was active: under the derived name
+		s.Put(&admv1.ValidatingWebhookConfiguration{
+			TypeMeta:   metav1.TypeMeta{APIVersion: "admissionregistration.k8s.io/v1", Kind: zzWHKind},
+			ObjectMeta: metav1.ObjectMeta{Name: zzWHRenamed, OwnerReferences: owners},
+		})
+		objs = append(objs, &admv1.ValidatingWebhookConfiguration{
+			TypeMeta:   metav1.TypeMeta{APIVersion: "admissionregistration.k8s.io/v1", Kind: zzWHKind},
+			ObjectMeta: metav1.ObjectMeta{Name: zzWHStatic},
+			Webhooks:   []admv1.ValidatingWebhook{{Name: "v.example.org"}},
+		})
+	}
+	pkg := zzMakePackage([]runtime.Object{&pkgmetav1.Provider{ObjectMeta: metav1.ObjectMeta{Name: "m"}}}, objs)
+
+	r := NewReconciler(&zzMgr15{c: s},
+		WithNewPackageRevisionFn(func() v1.PackageRevision { return &v1.ProviderRevision{} }),
+		WithCache(zzCache{}),
+		WithParser(zzParser{pkg: pkg}),
+		WithLinter(xpkg.NewProviderLinter()),
+		WithVersioner(zzVersioner{in: true}),
+		WithEstablisher(NewAPIEstablisher(s, "crossplane-system", 10)),
+		WithDependencyManager(zzLock{}),
+		WithConfigStore(zzCfg{}),
+		WithFeatureFlags(&feature.Flags{}),
+	)
+	req := reconcile.Request{NamespacedName: types.NamespacedName{Name: "rev-old"}}
+	settled := false
+	for k := 0; k < 3 && !settled; k++ {
+		res, err := r.Reconcile(context.Background(), req)
+		after := &v1.ProviderRevision{}
+		s.Peek("", "rev-old", after)
+		settled = k > 0 && err == nil && !res.Requeue && res.RequeueAfter == 0 && after.GetCondition(v1.TypeHealthy).Status == corev1.ConditionTrue
+	}
+	zz.Assert("reconciles-settle", settled)
+	zz.Cover("settled")
+	zz.Assert("inactive-revision-no-longer-controls-its-crd", kube.ControllerUID(s.Doc(zzCRDGroup, zzCRDKind, "", zzCRDNames[0])) != zzOldUID)
+	if hasWebhook {
+		zz.Assert("inactive-revision-no-longer-controls-its-webhook-configuration", kube.ControllerUID(s.Doc(zzWHGroup, zzWHKind, "", zzWHRenamed)) != zzOldUID)
+	}
 }
